@@ -496,3 +496,312 @@ Lemma same_table_spec table raw :
   ~ In key_sep table ->
   (same_table table raw = true <-> exists key, raw = table ++ key_sep :: key).
 Proof. intro H. apply (same_table_iff table raw H). Qed.
+
+(* ---------- without a COUNT argument (or COUNT <= 0): the default page size ---------- *)
+
+Lemma clamp_nonpos count : (count <= 0)%Z -> clamp_count count = 0%Z.
+Proof.
+  intro H. unfold clamp_count. destruct (Z.ltb_spec count 0).
+  - reflexivity.
+  - assert (count = 0)%Z as -> by lia. reflexivity.
+Qed.
+
+Lemma n0_pos : (0 < N.to_nat default_scan_count)%nat.
+Proof. unfold default_scan_count. lia. Qed.
+
+Lemma next_cursor_spec0 ay f :
+  next_cursor ay 0 f = Ok (match last_opt ay with Some x => f x | None => [] end).
+Proof.
+  unfold next_cursor.
+  destruct ay as [|a ay']; [reflexivity|].
+  replace (Z.of_nat (length (a :: ay')) <? 0)%Z with false by (symmetry; apply Z.ltb_ge; lia).
+  replace (Z.of_nat (length (a :: ay')) =? 0)%Z with false by (symmetry; apply Z.eqb_neq; cbn [length]; lia).
+  cbn [orb andb]. destruct (last_opt_some (a :: ay')) as [x ->]; [discriminate|]. reflexivity.
+Qed.
+
+Section Coll0.
+  Variable compile : bytes -> option (bytes -> bool).
+  Variables (db : list bytes) (dt : N) (table verkey : bytes) (pat : bytes) (m : bytes -> bool) (count : Z).
+  Hypothesis db_sorted : sorted_db db.
+  Hypothesis dt_coll : is_coll_type dt = true.
+  Hypothesis table_len : N.of_nat (length table) < 65536.
+  Hypothesis key_len : 0 < N.of_nat (length verkey) <= max_key_size.
+  Hypothesis pat_ok : matcher compile pat = Some m.
+  Hypothesis count_nonpos : (count <= 0)%Z.
+
+  Let p := coll_prefix dt table verkey.
+  Let n := N.to_nat default_scan_count.
+
+  Lemma key_len160 : N.of_nat (length verkey) < 65536.
+  Proof. unfold max_key_size in key_len. lia. Qed.
+
+  Lemma key_size_check0 : (N.to_nat max_key_size <? length verkey)%nat || (length verkey =? 0)%nat = false.
+  Proof.
+    apply orb_false_iff. split; [apply Nat.ltb_ge; lia|apply Nat.eqb_neq; lia].
+  Qed.
+
+  Lemma dec_ok_coll0 s : decode_coll_elem dt (p ++ s) = Ok s.
+  Proof. apply decode_coll_elem_ok; [exact dt_coll|exact table_len|exact key_len160]. Qed.
+
+  Lemma sep_small0 : coll_start_sep < 255. Proof. reflexivity. Qed.
+
+  Lemma coll_call_fwd0 c :
+    coll_scan_command compile db dt table verkey true false c pat count =
+    Ok (firstn n (stream ltf m (elems dt table verkey db) c),
+        next_of0 (firstn n (stream ltf m (elems dt table verkey db) c))).
+  Proof.
+    unfold coll_scan_command, coll_scan_generic. rewrite pat_ok. cbn [negb].
+    rewrite key_size_check0. unfold build_specific_range, encode_specific_key. rewrite dt_coll.
+    rewrite (clamp_nonpos count count_nonpos). change (N.to_nat (check_scan_count 0)) with n.
+    unfold coll_key. fold p. rewrite app_nil_r.
+    pose proof (visible_decodes_fwd (decode_coll_elem dt) (coll_q dt table verkey) coll_start_sep sep_small0) as Hvis.
+    pose proof (page_fwd (decode_coll_elem dt) m (coll_q dt table verkey) coll_start_sep sep_small0) as Hpg.
+    rewrite <- coll_prefix_snoc in Hvis, Hpg. fold p in Hvis, Hpg.
+    rewrite (coll_loop_scan_loop _ m _ _ (Hvis dec_ok_coll0 db db_sorted c)).
+    rewrite (Hpg dec_ok_coll0 db db_sorted c n).
+    rewrite ?(clamp_nonpos count count_nonpos). rewrite next_cursor_spec0. unfold next_of0, elems. fold p.
+    destruct (length (firstn n (stream ltf m (names p db) c)) <? n)%nat; [reflexivity|].
+    now destruct (last_opt (firstn n (stream ltf m (names p db) c))).
+  Qed.
+
+  Lemma coll_call_rev0 c :
+    coll_scan_command compile db dt table verkey true true c pat count =
+    Ok (firstn n (stream ltr m (rev (elems dt table verkey db)) c),
+        next_of0 (firstn n (stream ltr m (rev (elems dt table verkey db)) c))).
+  Proof.
+    unfold coll_scan_command, coll_scan_generic. rewrite pat_ok. cbn [negb].
+    rewrite key_size_check0. unfold build_specific_range, encode_specific_key. rewrite dt_coll.
+    rewrite (clamp_nonpos count count_nonpos). change (N.to_nat (check_scan_count 0)) with n.
+    unfold coll_key. fold p. rewrite app_nil_r.
+    pose proof (visible_decodes_rev (decode_coll_elem dt) (coll_q dt table verkey) coll_start_sep) as Hvis.
+    pose proof (page_rev (decode_coll_elem dt) m (coll_q dt table verkey) coll_start_sep) as Hpg.
+    rewrite <- coll_prefix_snoc in Hvis, Hpg. fold p in Hvis, Hpg.
+    rewrite (coll_loop_scan_loop _ m _ _ (Hvis dec_ok_coll0 db db_sorted c)).
+    rewrite (Hpg dec_ok_coll0 db db_sorted c n).
+    rewrite ?(clamp_nonpos count count_nonpos). rewrite next_cursor_spec0. unfold next_of0, elems. fold p.
+    rewrite names_rev.
+    destruct (length (firstn n (stream ltr m (rev (names p db)) c)) <? n)%nat; [reflexivity|].
+    now destruct (last_opt (firstn n (stream ltr m (rev (names p db)) c))).
+  Qed.
+
+  Lemma elems_sorted0 : sorted ltf (elems dt table verkey db).
+  Proof. apply (names_sorted ltf ltf_app). exact db_sorted. Qed.
+
+  Lemma elems_rev_sorted0 : sorted ltr (rev (elems dt table verkey db)).
+  Proof.
+    unfold elems. rewrite <- names_rev. apply (names_sorted ltr ltr_app). now apply sorted_rev.
+  Qed.
+
+  Theorem coll_scan_fwd0 start fuel :
+    let R := filter m (filter (fun s => bytes_ltb start s) (elems dt table verkey db)) in
+    (length R / n + 1 < fuel)%nat ->
+    exists pages,
+      iterate_coll compile fuel db dt table verkey true false start pat count = (pages, Done) /\
+      concat (map fst pages) = R /\
+      (length pages <= length R / n + 2)%nat.
+  Proof.
+    intros R Hfuel. unfold iterate_coll.
+    apply (iterate_plain0 ltf ltf_irrefl ltf_trans (fun _ => Err) m (elems dt table verkey db) elems_sorted0
+             (names_nonempty _ _) n n0_pos
+             (fun c => coll_scan_command compile db dt table verkey true false c pat count) coll_call_fwd0).
+    exact Hfuel.
+  Qed.
+
+  Theorem coll_scan_rev0 start fuel :
+    let R := filter m (filter (fun s => bytes_ltb s start) (rev (elems dt table verkey db))) in
+    (length R / n + 1 < fuel)%nat ->
+    exists pages,
+      iterate_coll compile fuel db dt table verkey true true start pat count = (pages, Done) /\
+      concat (map fst pages) = R /\
+      (length pages <= length R / n + 2)%nat.
+  Proof.
+    intros R Hfuel. unfold iterate_coll.
+    assert (Forall (fun s => s <> []) (rev (elems dt table verkey db))) as Hne.
+    { apply Forall_forall. intros s Hs. apply in_rev in Hs.
+      pose proof (names_nonempty p db) as H. rewrite Forall_forall in H. now apply H. }
+    apply (iterate_plain0 ltr ltr_irrefl ltr_trans (fun _ => Err) m (rev (elems dt table verkey db)) elems_rev_sorted0
+             Hne n n0_pos
+             (fun c => coll_scan_command compile db dt table verkey true true c pat count) coll_call_rev0).
+    exact Hfuel.
+  Qed.
+End Coll0.
+
+Section Keys0.
+  Variable compile : bytes -> option (bytes -> bool).
+  Variables (db : list bytes) (d : dtype) (table : bytes) (pat : bytes) (m : bytes -> bool) (count : Z).
+  Hypothesis db_sorted : sorted_db db.
+  Hypothesis table_ok : ~ In key_sep table.
+  (* every stored key was written as "table:key" (the write path refuses anything else) ... *)
+  Hypothesis keys_have_table : Forall (fun raw => extract_table raw <> None) (rawkeys d db).
+  (* ... with a non-empty key name (the property's quantifier) *)
+  Hypothesis no_empty_name : ~ In (type_prefix d ++ wrap_cursor table []) db.
+  Hypothesis pat_ok : matcher compile pat = Some m.
+  Hypothesis count_nonpos : (count <= 0)%Z.
+
+  Let p := type_prefix d.
+  Let n := N.to_nat default_scan_count.
+  Let inT := same_table table.
+
+  Lemma scan_generic_fwd0 c :
+    scan_generic compile db (get_data_store_type d) c (clamp_count count) pat false =
+    Ok (firstn n (stream ltf m (rawkeys d db) c)).
+  Proof.
+    unfold scan_generic. rewrite pat_ok. unfold build_scan_key_range, encode_scan_max_key_nil.
+    rewrite !encode_scan_key_ok. rewrite app_nil_r.
+    rewrite (clamp_nonpos count count_nonpos). change (N.to_nat (check_scan_count 0)) with n. f_equal.
+    destruct (type_prefix_snoc d) as [q [c0 [Hp Hc0]]].
+    pose proof (page_fwd (decode_scan_key (get_data_store_type d)) m q c0 Hc0) as Hpg.
+    rewrite <- Hp in Hpg. unfold rawkeys. apply Hpg; [apply decode_scan_key_ok|exact db_sorted].
+  Qed.
+
+  Lemma scan_generic_rev0 c :
+    scan_generic compile db (get_data_store_type d) c (clamp_count count) pat true =
+    Ok (firstn n (stream ltr m (rev (rawkeys d db)) c)).
+  Proof.
+    unfold scan_generic. rewrite pat_ok. unfold build_scan_key_range.
+    rewrite !encode_scan_key_ok. rewrite app_nil_r.
+    rewrite (clamp_nonpos count count_nonpos). change (N.to_nat (check_scan_count 0)) with n. f_equal.
+    destruct (type_prefix_snoc d) as [q [c0 [Hp Hc0]]].
+    pose proof (page_rev (decode_scan_key (get_data_store_type d)) m q c0) as Hpg.
+    rewrite <- Hp in Hpg. unfold rawkeys. rewrite <- names_rev.
+    apply Hpg; [apply decode_scan_key_ok|exact db_sorted].
+  Qed.
+
+  Lemma cut_table_cut0 l : cut_table table l = cut inT l.
+  Proof. induction l as [|v r IH]; [reflexivity|]. cbn [cut_table cut]. unfold inT. now rewrite IH. Qed.
+
+  Lemma key_call_post0 reverse c (pg : list bytes) :
+    Forall (fun raw => extract_table raw <> None) pg ->
+    scan_generic compile db (get_data_store_type d) (wrap_cursor table c) (clamp_count count) pat reverse = Ok pg ->
+    key_scan_command compile db d reverse (wrap_cursor table c) pat count = Ok (node_post0 inT rk_of pg).
+  Proof.
+    intros Hpg Hscan. unfold key_scan_command. rewrite extract_table_wrap by exact table_ok.
+    rewrite Hscan. rewrite ?(clamp_nonpos count count_nonpos). rewrite next_cursor_spec0. unfold node_post0.
+    destruct (last_opt pg) as [x|] eqn:Hl.
+    - assert (extract_table x <> None) as Hx.
+      { rewrite Forall_forall in Hpg. apply Hpg. now apply last_opt_in. }
+      unfold inT, same_table. fold (rk_of x).
+      destruct (extract_table x) as [[tab r]|] eqn:Ex; [|congruence].
+      destruct (bytes_eqb tab table); cbn [negb]; [reflexivity|].
+      now rewrite cut_table_cut0.
+    - destruct pg as [|a pg']; [|destruct (last_opt_some (a :: pg')) as [y Hy]; [discriminate|congruence]].
+      cbn [length]. replace (0 <? n)%nat with true
+        by (symmetry; apply Nat.ltb_lt; unfold n; exact n0_pos).
+      reflexivity.
+  Qed.
+
+  Lemma wrap_rk0 x : inT x = true -> wrap_cursor table (rk_of x) = x.
+  Proof.
+    intro H. apply (same_table_iff table x table_ok) in H. destruct H as [r ->].
+    unfold rk_of. now rewrite extract_table_wrap.
+  Qed.
+
+  Lemma rk_nonempty0 x : In x (rawkeys d db) -> inT x = true -> rk_of x <> [].
+  Proof.
+    intros Hx H. apply (same_table_iff table x table_ok) in H. destruct H as [r ->].
+    unfold rk_of. rewrite extract_table_wrap by exact table_ok. intros ->.
+    apply names_in in Hx. destruct Hx as [_ Hx]. exact (no_empty_name Hx).
+  Qed.
+
+  Lemma wrap_split0 c : wrap_cursor table c = (table ++ [key_sep]) ++ c.
+  Proof. unfold wrap_cursor. now rewrite <- app_assoc. Qed.
+
+  Lemma down_closed_fwd0 c x y :
+    ltf (wrap_cursor table c) x = true -> ltf x y = true -> inT y = true -> inT x = true.
+  Proof.
+    intros H1 H2 Hy. apply (same_table_iff table y table_ok) in Hy. destruct Hy as [ry ->].
+    apply (same_table_iff table x table_ok). rewrite wrap_split0 in *. unfold ltf in *.
+    destruct (prefix_convex _ _ _ _ H1 H2) as [s ->]. exists s. now rewrite wrap_split0.
+  Qed.
+
+  Lemma down_closed_rev0 c x y :
+    ltr (wrap_cursor table c) x = true -> ltr x y = true -> inT y = true -> inT x = true.
+  Proof.
+    intros H1 H2 Hy. apply (same_table_iff table y table_ok) in Hy. destruct Hy as [ry ->].
+    apply (same_table_iff table x table_ok). rewrite wrap_split0 in *. unfold ltr in *.
+    destruct (prefix_convex _ _ _ _ H2 H1) as [s ->]. exists s. now rewrite wrap_split0.
+  Qed.
+
+  Lemma firstn_forall0 {A} (P : A -> Prop) k l : Forall P l -> Forall P (firstn k l).
+  Proof.
+    intro H. rewrite <- (firstn_skipn k l) in H. apply Forall_app in H. tauto.
+  Qed.
+
+  Lemma stream_forall0 lt0 (P : bytes -> Prop) l c : Forall P l -> Forall P (stream lt0 m l c).
+  Proof.
+    intro H. apply Forall_forall. intros x Hx. unfold stream in Hx.
+    apply filter_In in Hx. destruct Hx as [Hx _]. apply filter_In in Hx. destruct Hx as [Hx _].
+    rewrite Forall_forall in H. now apply H.
+  Qed.
+
+  Lemma key_call_fwd0 c :
+    key_scan_command compile db d false (wrap_cursor table c) pat count =
+    Ok (node_post0 inT rk_of (firstn n (stream ltf m (rawkeys d db) (wrap_cursor table c)))).
+  Proof.
+    apply key_call_post0; [|apply scan_generic_fwd0].
+    apply firstn_forall0, stream_forall0. exact keys_have_table.
+  Qed.
+
+  Lemma key_call_rev0 c :
+    key_scan_command compile db d true (wrap_cursor table c) pat count =
+    Ok (node_post0 inT rk_of (firstn n (stream ltr m (rev (rawkeys d db)) (wrap_cursor table c)))).
+  Proof.
+    apply key_call_post0; [|apply scan_generic_rev0].
+    apply firstn_forall0, stream_forall0. apply Forall_forall. intros x Hx. apply in_rev in Hx.
+    rewrite Forall_forall in keys_have_table. now apply keys_have_table.
+  Qed.
+
+  Lemma rawkeys_sorted0 : sorted ltf (rawkeys d db).
+  Proof. apply (names_sorted ltf ltf_app). exact db_sorted. Qed.
+
+  Lemma rawkeys_rev_sorted0 : sorted ltr (rev (rawkeys d db)).
+  Proof. unfold rawkeys. rewrite <- names_rev. apply (names_sorted ltr ltr_app). now apply sorted_rev. Qed.
+
+  Lemma filter_comm30 (f g h : bytes -> bool) l :
+    filter f (filter g (filter h l)) = filter h (filter f (filter g l)).
+  Proof.
+    induction l as [|x r IH]; [reflexivity|]. cbn [filter].
+    destruct (h x) eqn:Eh; destruct (g x) eqn:Eg; cbn [filter]; rewrite ?Eh, ?Eg;
+      destruct (f x) eqn:Ef; cbn [filter]; rewrite ?Eh, ?Ef, ?Eg; cbn [filter]; rewrite ?Eh; now rewrite IH.
+  Qed.
+
+  Theorem key_scan_fwd0 start fuel :
+    let R := filter m (filter (fun s => bytes_ltb (wrap_cursor table start) s)
+                         (filter (same_table table) (rawkeys d db))) in
+    (length R / n + 1 < fuel)%nat ->
+    exists pages,
+      iterate_keys compile fuel db d false table start pat count = (pages, Done) /\
+      concat (map fst pages) = R /\
+      (length pages <= length R / n + 2)%nat.
+  Proof.
+    intros R Hfuel. unfold iterate_keys.
+    assert (R = filter inT (stream ltf m (rawkeys d db) (wrap_cursor table start))) as HR.
+    { unfold R, stream, inT, ltf. apply filter_comm30. }
+    rewrite HR in *.
+    apply (iterate_cut0 ltf ltf_irrefl ltf_trans (fun _ => Err) m (rawkeys d db) rawkeys_sorted0 n
+             n0_pos inT rk_of (wrap_cursor table) wrap_rk0 rk_nonempty0 down_closed_fwd0
+             (fun c => key_scan_command compile db d false (wrap_cursor table c) pat count) key_call_fwd0).
+    exact Hfuel.
+  Qed.
+
+  Theorem key_scan_rev0 start fuel :
+    let R := filter m (filter (fun s => bytes_ltb s (wrap_cursor table start))
+                         (filter (same_table table) (rev (rawkeys d db)))) in
+    (length R / n + 1 < fuel)%nat ->
+    exists pages,
+      iterate_keys compile fuel db d true table start pat count = (pages, Done) /\
+      concat (map fst pages) = R /\
+      (length pages <= length R / n + 2)%nat.
+  Proof.
+    intros R Hfuel. unfold iterate_keys.
+    assert (R = filter inT (stream ltr m (rev (rawkeys d db)) (wrap_cursor table start))) as HR.
+    { unfold R, stream, inT, ltr. apply filter_comm30. }
+    rewrite HR in *.
+    assert (forall x, In x (rev (rawkeys d db)) -> inT x = true -> rk_of x <> []) as Hrk.
+    { intros x Hx. apply in_rev in Hx. now apply rk_nonempty0. }
+    apply (iterate_cut0 ltr ltr_irrefl ltr_trans (fun _ => Err) m (rev (rawkeys d db)) rawkeys_rev_sorted0 n
+             n0_pos inT rk_of (wrap_cursor table) wrap_rk0 Hrk down_closed_rev0
+             (fun c => key_scan_command compile db d true (wrap_cursor table c) pat count) key_call_rev0).
+    exact Hfuel.
+  Qed.
+End Keys0.
